@@ -133,17 +133,29 @@ def refill4 (M : Mach) (s : Guts) (dr : Nat) : List (BitVec 8) × Guts :=
 
 /-! ### parameters (plain array access in the Rust: `self.d.into(): [u32;4]`) -/
 
-/-- `set_stream_param(param, value)`; `param ∉ {0,1}` indexes out of bounds and panics. -/
+/-- `set_stream_param(param, value)`, `param : u32` (`param < 2^32`):
+    ```
+    let mut d: [u32; 4] = self.d.into();
+    let p0 = ((param << 1) | 1) as usize;      // `<<` on u32 DISCARDS bit 31 of param (no overflow check on shifts)
+    let p1 = (param << 1) as usize;
+    d[p0] = (value >> 32) as u32;              // index out of bounds (panic) iff p0 ≥ 4
+    d[p1] = value as u32;
+    ```
+    so `p1 = 2·(param mod 2^31)`, `p0 = p1 + 1`: `param ≡ 0 (mod 2^31)` writes words 0, 1, `param ≡ 1 (mod 2^31)` writes
+    words 2, 3, every other value indexes out of bounds and panics (before anything is stored). -/
 def setStreamParam (s : Guts) (param : Nat) (value : BitVec 64) : Out Guts :=
-  if param = 0 then
+  let q := param % 2147483648
+  if q = 0 then
     .ok { s with d := pack32 (value.setWidth 32) ((value >>> 32).setWidth 32) (lane32 s.d 2) (lane32 s.d 3) }
-  else if param = 1 then
+  else if q = 1 then
     .ok { s with d := pack32 (lane32 s.d 0) (lane32 s.d 1) (value.setWidth 32) ((value >>> 32).setWidth 32) }
   else .panic "index out of bounds"
 
+/-- `get_stream_param(param)`: the same index computation (bit 31 of `param` is discarded by the shift). -/
 def getStreamParam (s : Guts) (param : Nat) : Out (BitVec 64) :=
-  if param = 0 then .ok (((lane32 s.d 1).setWidth 64 <<< 32) ||| (lane32 s.d 0).setWidth 64)
-  else if param = 1 then .ok (((lane32 s.d 3).setWidth 64 <<< 32) ||| (lane32 s.d 2).setWidth 64)
+  let q := param % 2147483648
+  if q = 0 then .ok (((lane32 s.d 1).setWidth 64 <<< 32) ||| (lane32 s.d 0).setWidth 64)
+  else if q = 1 then .ok (((lane32 s.d 3).setWidth 64 <<< 32) ||| (lane32 s.d 2).setWidth 64)
   else .panic "index out of bounds"
 
 def stream32Eq (a b : Guts) : Bool :=
